@@ -1100,18 +1100,45 @@ static ares_server_t *ares_random_server(ares_channel_t *channel)
 static void server_probe_cb(void *arg, ares_status_t status, size_t timeouts,
                             const ares_dns_record_t *dnsrec)
 {
-  ares_server_t *server = arg;
+  ares_channel_t    *channel = arg;
+  ares_slist_node_t *snode;
 
   (void)status;
   (void)timeouts;
   (void)dnsrec;
 
   /* The logic internally handles success/fail of the probe.  Whatever way it
-   * ended (answer, no retry left after a failure or timeout, cancellation),
-   * the server no longer has a probe outstanding and may be probed again.
-   * The server outlives its queries: it is destroyed only after its
-   * connections were closed, which ends a probe attached to one of them. */
-  server->probe_pending = ARES_FALSE;
+   * ended (answer, no retry left after a failure or timeout, cancellation), the
+   * server it was sent to may be probed again: clear probe_pending of every
+   * server that no longer has a probe outstanding on one of its connections.
+   * (The probe that just ended is already detached.  Don't remember the probed
+   * server in the query: a probe answered with TC is re-sent over TCP to
+   * whichever server is best, and the probed server may be removed from the
+   * configuration while the probe is still alive.) */
+  for (snode = ares_slist_node_first(channel->servers); snode != NULL;
+       snode = ares_slist_node_next(snode)) {
+    ares_server_t     *server = ares_slist_node_val(snode);
+    ares_llist_node_t *qnode;
+    ares_bool_t        found = ARES_FALSE;
+
+    if (!server->probe_pending) {
+      continue;
+    }
+
+    for (qnode = ares_llist_node_first(channel->all_queries); qnode != NULL;
+         qnode = ares_llist_node_next(qnode)) {
+      const ares_query_t *query = ares_llist_node_val(qnode);
+      if (query->callback == server_probe_cb && query->conn != NULL &&
+          query->conn->server == server) {
+        found = ARES_TRUE;
+        break;
+      }
+    }
+
+    if (!found) {
+      server->probe_pending = ARES_FALSE;
+    }
+  }
 }
 
 /* Determine if we should probe a downed server */
@@ -1168,7 +1195,7 @@ static void ares_probe_failed_server(ares_channel_t      *channel,
   probe_server->probe_pending = ARES_TRUE;
   ares_send_nolock(channel, probe_server,
                    ARES_SEND_FLAG_NOCACHE | ARES_SEND_FLAG_NORETRY,
-                   query->query, server_probe_cb, probe_server, NULL);
+                   query->query, server_probe_cb, channel, NULL);
 }
 
 static size_t ares_calc_query_timeout(const ares_query_t   *query,
